@@ -565,6 +565,7 @@ class TermBuilder:
         c = self._counter(ident, defs)
         if c is not None:
             return c
+        self._use_site = at
         if self.guarded and len(defs) > 1:
             g = self._guarded(defs)
             if g is not None:
@@ -594,6 +595,116 @@ class TermBuilder:
         if any(not k for k in keyed) or len(set(keyed)) != len(keyed):
             return None
         return ("gphi", frozenset((k, self.def_term(d)) for k, d in zip(keyed, defs)))
+
+    def built_lists(self):
+        """[(name, defining statement, loop, append statement, comprehension term)] for every list this function builds
+        with one append in one for loop."""
+        out = []
+        for name in sorted(self.rd.names()) if hasattr(self.rd, "names") else []:
+            pass
+        seen = set()
+        for st in self.cfg.all_stmts():
+            if isinstance(st, ast.Assign) and len(st.targets) == 1 and isinstance(st.targets[0], ast.Name):
+                nm = st.targets[0].id
+                for d in self.rd.all_defs(nm):
+                    if d.stmt is st and d.kind == "assign" and d.idx not in seen:
+                        seen.add(d.idx)
+                        t = self._built_list(nm, d, st)
+                        if t is not None:
+                            loop, app = self.memo[("built", d.idx)]
+                            out.append((nm, st, loop, app, t))
+        return out
+
+    def list_values(self):
+        """[(statement whose path condition applies, name, list-valued term)]: comprehensions (or choices between them)
+        assigned to a name, and lists built by one append loop (statement = the append)."""
+        out = []
+        for st in self.cfg.all_stmts():
+            if isinstance(st, ast.Assign) and len(st.targets) == 1 and isinstance(st.targets[0], ast.Name) and isinstance(st.value, (ast.ListComp, ast.IfExp)):
+                out.append((st, st.targets[0].id, self.term(st.value, st)))
+        for nm, dst, loop, app, t in self.built_lists():
+            out.append((app, nm, t))
+        return out
+
+    def is_builder_append(self, stmt):
+        return any(app is stmt for _n, _d, _l, app, _t in self.built_lists())
+
+    def _built_list(self, ident, d, at):
+        """``name = []`` filled by ONE ``name.append(elt)`` inside ONE for loop and read after that loop is the
+        comprehension ``[elt for target in iter if conds]`` (same term as the comprehension spelling)."""
+        v = d.value
+        empty = (isinstance(v, ast.List) and not v.elts) or (isinstance(v, ast.Call) and isinstance(v.func, ast.Name) and v.func.id == "list" and not v.args and not v.keywords)
+        if not empty or not isinstance(at, ast.AST) or d.stmt is None or not isinstance(d.stmt, ast.Assign) \
+                or len(d.stmt.targets) != 1 or not isinstance(d.stmt.targets[0], ast.Name):
+            return None
+        key = ("built", d.idx)
+        if key not in self.memo:
+            self.memo[key] = None
+            app = []
+            ok = True
+            stmt_of = {}
+            for s_ in self.cfg.all_stmts():
+                for n_ in ast.walk(s_) if not isinstance(s_, (ast.For, ast.While, ast.If, ast.Try, ast.With)) else ast.walk(getattr(s_, "test", None) or getattr(s_, "iter", None) or ast.Pass()):
+                    stmt_of.setdefault(id(n_), s_)
+            def mine(node):
+                # only mutations of the list THIS definition created count (another branch may build or edit its own)
+                host = stmt_of.get(id(node))
+                return host is not None and [x.idx for x in self.rd.reaching(ident, self.cfg.node(host)) if x.kind != "del"] == [d.idx]
+
+            own_loops = self.cfg.enclosing_loops(d.stmt)
+            for n in _own_walk(self.fn.node):
+                if isinstance(n, ast.Attribute) and isinstance(n.value, ast.Name) and n.value.id == ident:
+                    if not mine(n):
+                        continue
+                    if n.attr == "append":
+                        host = stmt_of.get(id(n))
+                        if [l for l in self.cfg.enclosing_loops(host) if l not in own_loops]:
+                            app.append(n)
+                        # an append after the loop (closing element ...) is not part of the comprehension; as before, the
+                        # term of the name does not model it
+                    elif n.attr in ("extend", "insert", "pop", "remove", "clear", "sort", "reverse", "__setitem__"):
+                        ok = False
+                elif isinstance(n, (ast.Subscript,)) and isinstance(n.value, ast.Name) and n.value.id == ident and not isinstance(n.ctx, ast.Load):
+                    if mine(n):
+                        ok = False
+            for s_ in self.cfg.all_stmts():
+                if isinstance(s_, ast.AugAssign) and isinstance(s_.target, ast.Name) and s_.target.id == ident:
+                    ok = False
+            st = None
+            if ok and len(app) == 1:
+                for s_ in self.cfg.all_stmts():
+                    if isinstance(s_, ast.Expr) and isinstance(s_.value, ast.Call) and s_.value.func is app[0] and len(s_.value.args) == 1 and not s_.value.keywords:
+                        st = s_
+            if st is not None:
+                loops = [l for l in self.cfg.enclosing_loops(st) if l not in self.cfg.enclosing_loops(d.stmt)]
+                if len(loops) == 1 and isinstance(loops[0], ast.For) and not loops[0].orelse \
+                        and not any(isinstance(n, (ast.Break, ast.Return)) for n in ast.walk(loops[0])):
+                    self.memo[key] = (loops[0], st)
+        hit = self.memo[key]
+        if hit is None:
+            return None
+        loop, st = hit
+        if any(n is at for n in ast.walk(loop)):
+            return None  # read inside the loop: still being built
+        tkey = ("builtterm", d.idx)
+        if tkey not in self.memo:
+            from .guards import literals as _lits
+            conds = []
+            inside = False
+            for parent, which in self.cfg.enclosing(st):
+                if parent is loop:
+                    inside = True
+                    continue
+                if not inside:
+                    continue
+                if isinstance(parent, ast.If):
+                    conds += _lits(self.term(parent.test, parent), which == "body")
+                else:
+                    self.memo[tkey] = None  # nested loop / try / with between the loop and the append: not a plain comprehension
+                    return None
+            lid = f"{loop.lineno}:{loop.col_offset}"
+            self.memo[tkey] = ("comp", "list", self.term(st.value.args[0], st), lid, self.term(loop.iter, loop), tuple(conds))
+        return self.memo[tkey]
 
     def _counter(self, ident, defs):
         if len(defs) != 2:
@@ -625,6 +736,10 @@ class TermBuilder:
         return ("counter", ident, self.def_term(other), inc[1], f"{lp.lineno}")
 
     def def_term(self, d):
+        if d.kind == "assign" and isinstance(d.value, (ast.List, ast.Call)):
+            bt = self._built_list(d.name, d, getattr(self, "_use_site", None))
+            if bt is not None:
+                return bt
         key = ("def", d.idx)
         if key in self.memo:
             return self.memo[key]
